@@ -37,9 +37,22 @@ def _feed(args):
             api.read_sunvox_file(io.BytesIO(b"SVOX\0\0\0\0SFFF\4\0\0\0\1\0\0\0STYP\3\0\0\0Zz\0"))
         except Exception:
             pass
+    label = ["Lead", "Pad", "Bass", "x"][seed % 4]       # user-editable labels repeat across modules of different types
+    if seed % 2 == 0:          # earlier in this process: a module of ANOTHER type with the same label was driven through the same controller number
+        wcls = api.m.Amplifier if t != "Amplifier" else api.m.Filter
+        wp = api.Project()
+        wm = wp.new_module(wcls)
+        wm.name = label
+        wmc = wp.new_module(api.m.MultiCtl)
+        wmc >> wm
+        wmc.mappings.values[0].controller = min(cls.controllers[cname].number, len(wcls.controllers))
+        try:
+            wmc.value = 16384
+        except Exception:
+            pass
     p = api.Project()
     target = p.new_module(cls)
-    target.name = ["Lead", "Pad", "Bass", "x"][seed % 4]       # user-editable labels repeat across modules of different types
+    target.name = label
     mc = p.new_module(api.m.MultiCtl)
     mc >> target
     ctl = cls.controllers[cname]
